@@ -486,6 +486,7 @@ def run(ctx, res):
     # representation- and history-robustness of the public functions (harness/apirobust.py)
     from .. import apirobust_cases as _AC
     _AC.c15(res, np.random.default_rng(ctx["seed"] + 4242), ctx)
+    _AC.c15_sizes(res, np.random.default_rng(ctx["seed"] + 4243), ctx)
 
 
 def replay(data):
